@@ -103,6 +103,10 @@ func (fdb *fsDb) Get(ctx context.Context, key []byte) ([]byte, error) {
 	if err != nil {
 		return nil, err
 	}
+	if fdb.Prefix() > db.DATATYPE_STATICLOAD {
+		// legacy (un-prefixed) file names only ever existed for resource data
+		flka = fsLookupKey{}
+	}
 	for i, fp := range []string{flk.Translation, flka.Translation, flk.Default, flka.Default} {
 		if fp == "" {
 			logg.TraceCtxf(ctx, "fs get skip missing", "i", i)
